@@ -353,6 +353,13 @@ pub struct SpatialTrackDistances {
 impl SpatialTrackDistances {
 	#[must_use]
 	pub(crate) fn relative_distance(&self, distance: f32) -> f32 {
+		// with an empty or inverted range there's nothing to interpolate
+		// over (and f32::clamp panics if min > max): everything closer
+		// than the minimum distance is at full volume, everything else
+		// is silent
+		if self.max_distance <= self.min_distance {
+			return if distance < self.min_distance { 0.0 } else { 1.0 };
+		}
 		let distance = distance.clamp(self.min_distance, self.max_distance);
 		(distance - self.min_distance) / (self.max_distance - self.min_distance)
 	}
